@@ -16,7 +16,7 @@ Non-trivial = a little-endian or multi-byte field starts off a byte boundary, or
         "a NaN float field is only required to come back as a NaN (f32 conversion may quieten the payload)",
     ],
     max_len: 700,
-    quick_cases: 30_000,
+    quick_cases: 120_000,
     thorough_cases: 1_200_000,
     case,
     systematic: None,
